@@ -452,50 +452,50 @@ def compare_model(run, sc, tag, subset, msteps, isteps):
     """field-by-field comparison up to (and including the error flag of) the first step with an error"""
     n = min(len(msteps), len(isteps))
     if len(msteps) != len(isteps):
-        run.mismatch("tie:steps", {"scenario": sc["id"], "run": tag}, len(isteps), len(msteps))
+        run.mismatch("tie:pipeline:steps", {"scenario": sc["id"], "run": tag}, len(isteps), len(msteps))
     for s in range(n):
         m, im = msteps[s], isteps[s]
         where = {"scenario": sc["id"], "run": tag, "step_index": s, "it": im["it"]}
         if m["it"] != im["it"]:
-            run.mismatch("tie:step-number", where, im["it"], m["it"])
+            run.mismatch("tie:pipeline:step-number", where, im["it"], m["it"])
             return s
         if m["err"] != im["err"]:
-            run.mismatch("tie:error-flag", where, im["errc"], m["err"])
+            run.mismatch("tie:pipeline:error-flag", where, im["errc"], m["err"])
             return s
         if m["err"]:
             return s          # control flow after cvm::error is outside the model
         if not close(m["E"], im["E"]):
-            run.mismatch("tie:energy", where, im["E"], m["E"])
+            run.mismatch("tie:pipeline:energy", where, im["E"], m["E"])
         if len(m["V"]) != len(im["V"]) or len(m["B"]) != len(im["B"]):
-            run.mismatch("tie:objects", where, (len(im["V"]), len(im["B"])), (len(m["V"]), len(m["B"])))
+            run.mismatch("tie:pipeline:objects", where, (len(im["V"]), len(im["B"])), (len(m["V"]), len(m["B"])))
             return s
         for i, (mv, iv) in enumerate(zip(m["V"], im["V"])):
             for key in ("act", "rc", "awake", "apply", "arc"):
                 if mv[key] != iv[key]:
-                    run.mismatch("tie:var-deps", dict(where, var=i, field=key), iv[key], mv[key])
+                    run.mismatch("tie:pipeline:var-deps", dict(where, var=i, field=key), iv[key], mv[key])
             for key in ("fb", "fba", "f"):
                 if not close(mv[key], iv[key]):
-                    run.mismatch("tie:var-force", dict(where, var=i, field=key), iv[key], mv[key])
+                    run.mismatch("tie:pipeline:var-force", dict(where, var=i, field=key), iv[key], mv[key])
             if iv["act"] and not close(mv["x"], iv["x"]):
-                run.mismatch("tie:var-value", dict(where, var=i), iv["x"], mv["x"])
+                run.mismatch("tie:pipeline:var-value", dict(where, var=i), iv["x"], mv["x"])
         for q, (mb, ib) in enumerate(zip(m["B"], im["B"])):
             if ib["apply"] != (0 if sc["biases"][subset[q]]["kind"] in ("G", "F") else 1):
-                run.mismatch("tie:bias-apply", dict(where, bias=subset[q]), ib["apply"], "per kind")
+                run.mismatch("tie:pipeline:bias-apply", dict(where, bias=subset[q]), ib["apply"], "per kind")
             for key in ("act", "rc", "awake"):
                 if mb[key] != ib[key]:
-                    run.mismatch("tie:bias-deps", dict(where, bias=subset[q], field=key), ib[key], mb[key])
+                    run.mismatch("tie:pipeline:bias-deps", dict(where, bias=subset[q], field=key), ib[key], mb[key])
             if not close(mb["E"], ib["E"]):
-                run.mismatch("tie:bias-energy", dict(where, bias=subset[q]), ib["E"], mb["E"])
+                run.mismatch("tie:pipeline:bias-energy", dict(where, bias=subset[q]), ib["E"], mb["E"])
             if len(mb["F"]) != len(ib["F"]) or any(not close(a, b) for a, b in zip(mb["F"], ib["F"])):
-                run.mismatch("tie:bias-forces", dict(where, bias=subset[q]), ib["F"], mb["F"])
+                run.mismatch("tie:pipeline:bias-forces", dict(where, bias=subset[q]), ib["F"], mb["F"])
             if sc["biases"][subset[q]]["kind"] == "A" and (mb["REF"] is None) != (ib["REF"] is None):
-                run.mismatch("tie:abmd-ref", dict(where, bias=subset[q]), ib["REF"], mb["REF"])
+                run.mismatch("tie:pipeline:abmd-ref", dict(where, bias=subset[q]), ib["REF"], mb["REF"])
             elif sc["biases"][subset[q]]["kind"] == "A" and mb["REF"] is not None and not close(mb["REF"], ib["REF"]):
-                run.mismatch("tie:abmd-ref", dict(where, bias=subset[q]), ib["REF"], mb["REF"])
+                run.mismatch("tie:pipeline:abmd-ref", dict(where, bias=subset[q]), ib["REF"], mb["REF"])
         ia = atomf(im, sc["natoms"])
         for a in range(sc["natoms"]):
             if any(not close(m["A"][a][q], ia[a][q]) for q in range(3)):
-                run.mismatch("tie:atom-forces", dict(where, atom=a), ia[a], m["A"][a])
+                run.mismatch("tie:pipeline:atom-forces", dict(where, atom=a), ia[a], m["A"][a])
     return n
 
 
@@ -527,13 +527,13 @@ def oracle_superposition(run, sc, R):
         for a in range(sc["natoms"]):
             for q in range(3):
                 if not close(fab[a][q], fa[a][q] + fb[a][q]):
-                    run.violation("superposition:atom-force",
+                    run.violation("pipeline:superposition:atom-force",
                                   "scenario %d step %d (it=%d): force on atom %d with biases %s is %s but %s alone gives %s and %s alone gives %s"
                                   % (sc["id"], s, sAB[s]["it"], a + 1, AB, fab[a], sc["A"], fa[a], sc["B"], fb[a]),
                                   replay_of(sc, {"AB": AB, "A": sc["A"], "B": sc["B"]}, {"step_index": s, "atom": a}))
                     return
         if not close(sAB[s]["E"], sA[s]["E"] + sB[s]["E"]):
-            run.violation("superposition:energy",
+            run.violation("pipeline:superposition:energy",
                           "scenario %d step %d (it=%d): energy with biases %s is %r but %s alone gives %r and %s alone gives %r"
                           % (sc["id"], s, sAB[s]["it"], AB, sAB[s]["E"], sc["A"], sA[s]["E"], sc["B"], sB[s]["E"]),
                           replay_of(sc, {"AB": AB, "A": sc["A"], "B": sc["B"]}, {"step_index": s}))
@@ -556,11 +556,11 @@ def oracle_spec(run, sc, tag, subset, isteps):
             if act is not None and bool(act) != want:
                 disabled = not user_enabled_at(sc, j, s)
                 if act and disabled:
-                    sig = "disabled:reactivated-by-schedule" if b["tsf"] > 1 else "disabled:still-active"
+                    sig = "pipeline:disabled:reactivated-by-schedule" if b["tsf"] > 1 else "pipeline:disabled:still-active"
                 elif act:
-                    sig = "schedule:awake-off-multiple"
+                    sig = "pipeline:schedule:awake-off-multiple"
                 else:
-                    sig = "schedule:asleep-on-multiple"
+                    sig = "pipeline:schedule:asleep-on-multiple"
                 run.violation(sig, "scenario %d run %s step %d (it=%d): bias b%d (timeStepFactor %d, %s) is %s at this step"
                               % (sc["id"], tag, s, im["it"], j, b["tsf"], "user-disabled" if disabled else "user-enabled",
                                  "active" if act else "inactive"),
@@ -570,13 +570,13 @@ def oracle_spec(run, sc, tag, subset, isteps):
         for a in range(sc["natoms"]):
             for q in range(3):
                 if not close(float(sp["A"][a][q]), ia[a][q]):
-                    run.violation("spec:atom-force",
+                    run.violation("pipeline:spec:atom-force",
                                   "scenario %d run %s step %d (it=%d): force on atom %d is %s, the sum of factor*F over the contributing biases is %s"
                                   % (sc["id"], tag, s, im["it"], a + 1, ia[a], [float(x) for x in sp["A"][a]]),
                                   replay_of(sc, {tag: subset}, {"step_index": s, "atom": a}))
                     return
         if not close(float(sp["E"]), im["E"]):
-            sig = "spec:energy"
+            sig = "pipeline:spec:energy"
             nonapp = [j for j in subset if sc["biases"][j]["kind"] in ("G", "F")]
             run.violation(sig, "scenario %d run %s step %d (it=%d): reported energy %r, sum of the energies of the contributing biases %r"
                           % (sc["id"], tag, s, im["it"], im["E"], float(sp["E"])),
@@ -588,7 +588,7 @@ def oracle_spec(run, sc, tag, subset, isteps):
                 if not sp["per"][j]["contributing"] and q < len(im["B"]) and q < len(isteps[s - 1]["B"]):
                     if im["B"][q]["E"] != isteps[s - 1]["B"][q]["E"] or im["B"][q]["F"] != isteps[s - 1]["B"][q]["F"] \
                        or im["B"][q]["REF"] != isteps[s - 1]["B"][q]["REF"]:
-                        run.violation("schedule:evaluated-off-multiple",
+                        run.violation("pipeline:schedule:evaluated-off-multiple",
                                       "scenario %d run %s step %d (it=%d): bias b%d (factor %d) changed its energy/forces/state at a step where it must not be evaluated"
                                       % (sc["id"], tag, s, im["it"], j, sc["biases"][j]["tsf"]),
                                       replay_of(sc, {tag: subset}, {"step_index": s, "bias": j}))
@@ -632,7 +632,7 @@ def oracle_impulse(run, sc, tag, subset, isteps):
                 tot = sum(atomf(isteps[s0 + d], sc["natoms"])[a][q] for d in range(n))
                 inst = spec[s0]["A"][a][q] / n
                 if not close(tot, float(n * inst)):
-                    run.violation("impulse:window-sum",
+                    run.violation("pipeline:impulse:window-sum",
                                   "scenario %d run %s window [%d,%d): the forces applied to atom %d sum to %r, %d times the instantaneous force at step %d is %r"
                                   % (sc["id"], tag, it, it + n, a + 1, tot, n, it, float(n * inst)),
                                   replay_of(sc, {tag: subset}, {"step_index": s0, "atom": a}))
@@ -648,11 +648,11 @@ def oracle_nonbiasing(run, sc, R):
     for s in range(n):
         fab, fa, fb = atomf(sAB[s], sc["natoms"]), atomf(sA[s], sc["natoms"]), atomf(sB[s], sc["natoms"])
         if any(not close(fab[a][q], fa[a][q]) or fb[a][q] != 0.0 for a in range(sc["natoms"]) for q in range(3)):
-            run.violation("nonbiasing:force-applied", "scenario %d step %d: a bias with applyBias off changes the atom forces: with %s, without %s, alone %s"
+            run.violation("pipeline:nonbiasing:force-applied", "scenario %d step %d: a bias with applyBias off changes the atom forces: with %s, without %s, alone %s"
                           % (sc["id"], s, fab, fa, fb), replay_of(sc, {"AB": [0, 1], "A": [0], "B": [1]}, {"step_index": s}))
             return
         if not close(sAB[s]["E"], sA[s]["E"]) or sB[s]["E"] != 0.0:
-            run.violation("nonbiasing:energy-reported",
+            run.violation("pipeline:nonbiasing:energy-reported",
                           "scenario %d step %d (it=%d): an ABF bias with applyBias off adds to the energy reported to the engine: %r with it, %r without it, %r when it is alone (its forces are not applied)"
                           % (sc["id"], s, sAB[s]["it"], sAB[s]["E"], sA[s]["E"], sB[s]["E"]),
                           replay_of(sc, {"AB": [0, 1], "A": [0], "B": [1]}, {"step_index": s}))
@@ -669,7 +669,7 @@ def oracle_var_tsf(run, sc, tag, subset, isteps):
                 iv = im["V"][i]
                 if iv["act"] or iv["f"] != 0.0:
                     keepers = [j for q, j in enumerate(subset) if i in sc["biases"][j]["vars"] and q < len(im["B"]) and im["B"][q]["act"]]
-                    sig = "variable-tsf:kept-awake-by-bias" if keepers else "variable-tsf:active-off-multiple"
+                    sig = "pipeline:variable-tsf:kept-awake-by-bias" if keepers else "pipeline:variable-tsf:active-off-multiple"
                     run.violation(sig, "scenario %d run %s step %d (it=%d): variable v%d has timeStepFactor %d but is active (applied force %r) at this step; active biases using it: %s"
                                   % (sc["id"], tag, s, im["it"], i, v["tsf"], iv["f"], ["b%d(factor %d)" % (j, sc["biases"][j]["tsf"]) for j in keepers]),
                                   replay_of(sc, {tag: subset}, {"step_index": s, "var": i}))
@@ -745,14 +745,14 @@ def oracle_coupling(run, sc, R, tfmodel):
                 skipped += 1
                 continue
             if got is None or not close(got, svals[s]):
-                run.violation("coupling:total-force", "scenario %d run %s: total force reported at step %d is %r, the engine's own force at step %d was %r (Colvars applied %r)"
+                run.violation("pipeline:coupling:total-force", "scenario %d run %s: total force reported at step %d is %r, the engine's own force at step %d was %r (Colvars applied %r)"
                               % (sc["id"], t_, s + 1, got, s, svals[s], f), replay_of(sc, {t_: sc["_subsets"][t_]}, {"step_index": s + 1}))
                 return skipped
         mt = tfmodel.get("%d:%s" % (sc["id"], t_))
         if mt is not None:
             imp = [steps[s]["TF"].get("v0") for s in range(n)]
             if len(mt) < n or any(imp[s] is None or not close(imp[s], mt[s]) for s in range(n)):
-                run.mismatch("tie:total-force", {"scenario": sc["id"], "run": t_}, imp, mt[:n])
+                run.mismatch("tie:pipeline:total-force", {"scenario": sc["id"], "run": t_}, imp, mt[:n])
     return skipped
 
 
@@ -843,7 +843,7 @@ def check(run):
                 ci = impl.get(tag)
                 if ci is None or not ci["complete"] or ci["config"] is None or "err=ok" not in ci["config"] \
                    or "nbias=%d" % len(sub) not in ci["config"]:
-                    run.mismatch("tie:config", {"scenario": sc["id"], "run": t, "script": "\n".join(scenario_lines(sc, sub, tag))[:3000]},
+                    run.mismatch("tie:pipeline:config", {"scenario": sc["id"], "run": t, "script": "\n".join(scenario_lines(sc, sub, tag))[:3000]},
                                  (ci or {}).get("config"), "accepted, complete run (harness rc=%s %s)" % (rc, err))
                     ok = False
                     continue
@@ -856,7 +856,7 @@ def check(run):
                 isteps = R[t]["steps"]
                 sub = impl_order(sc, sub)
                 if any([b["name"] for b in stp["B"]] != ["b%d" % j for j in sub] for stp in isteps):
-                    run.mismatch("tie:bias-order", {"scenario": sc["id"], "run": t}, [b["name"] for b in isteps[0]["B"]], sub)
+                    run.mismatch("tie:pipeline:bias-order", {"scenario": sc["id"], "run": t}, [b["name"] for b in isteps[0]["B"]], sub)
                     continue
                 run.dist("family:" + sc["family"])
                 if tag in mod:
